@@ -309,7 +309,7 @@ theorem breakAtRight_cases (te : Bool) (input : List Char) (index imw : Nat) (hi
           .lineEnd (if te then input.take (imw + 1) else input.take (index + 1) ++ ws) (index + 1 + ws.length)) ∨
     ((input.drop (index + 1)).all blank = true ∧
         breakAtRight te input index imw =
-          if te then .lineEnd (input.take (imw + 1)) (index + 1) else .endOfInput input) := by
+          if te then .endOfInput (input.take (imw + 1)) else .endOfInput input) := by
   unfold breakAtRight
   cases hs : scanRight te (input.drop (index + 1)) 0 with
   | feed i =>
@@ -528,6 +528,9 @@ theorem breakString_cases (mw : Nat) (te : Bool) (le input : List Char) :
 inductive Step (te : Bool) (input : List Char) : Snippet → Prop
   /-- the input cannot be broken -/
   | eoi : Step te input (.endOfInput input)
+  /-- `trim_end`: only blanks follow the break point: the input without them, no next line -/
+  | eoiTrim (m : Nat) : te = true → (input.drop m).all blank = true →
+      Step te input (.endOfInput (input.take m))
   /-- `trim_end`: the line up to the first line feed, trimmed -/
   | feedTrim (i : Nat) : te = true → input[i]? = some '\n' → (∀ c ∈ input.take i, isNl c = false) →
       Step te input (.endWithLineFeed (trimEndWs (input.take i) ++ ['\n']) (i + 1))
@@ -563,6 +566,12 @@ theorem valid_ne_backslash {input : List Char} {i : Nat} {c : Char} (h : input[i
   intro hc; subst hc
   unfold isValidLinebreak at hv
   simp [h, isWs_backslash] at hv
+
+theorem drop_split (l : List Char) (a b : Nat) (hab : a ≤ b) (hb : b ≤ l.length) :
+    l.drop a = (l.take b).drop a ++ l.drop b := by
+  have h : (l.take b ++ l.drop b).drop a = (l.take b).drop a ++ l.drop b :=
+    List.drop_append_of_le_length (by simp; omega)
+  rwa [List.take_append_drop] at h
 
 theorem mem_take_of_le {l : List Char} {a b : Nat} {d : Char} (hab : a ≤ b) (h : d ∈ l.take a) : d ∈ l.take b := by
   have : l.take a = (l.take b).take a := by rw [List.take_take, Nat.min_eq_left hab]
@@ -660,14 +669,9 @@ theorem breakAt_step (te : Bool) (input : List Char) (index : Nat) (hi : index <
       cases te with
       | true =>
         simp only [if_true]
-        refine Step.lineTrim (indexMinusWs input index + 1) (index + 1) rfl (by omega) (by omega) (by omega)
-          hblank ?_ ?_
-        · intro d hd'
-          apply hnonl d
-          exact mem_take_of_le (by omega) hd'
-        · by_cases hm : indexMinusWs input index < index
-          · left; omega
-          · right; simpa using hcs
+        refine Step.eoiTrim (indexMinusWs input index + 1) rfl ?_
+        rw [drop_split input (indexMinusWs input index + 1) (index + 1) (by omega) (by omega),
+          List.all_append, hblank, hall]; rfl
       | false => simpa using Step.eoi
 
 /-- Every answer of `break_string` is one of the five shapes of `Step`. -/
@@ -679,16 +683,17 @@ theorem breakString_step (mw : Nat) (te : Bool) (le input : List Char) :
 
 /-! ## progress and termination of the loop of `rewrite_string` -/
 
-/-- `EndOfInput` carries the whole input; the length read by the other two is at least one grapheme and
+/-- `EndOfInput` carries the whole input (under `trim_end`: without the blanks at its end); the length read by the other two is at least one grapheme and
 at most the input (`graphemes[cur_start..]` of the next turn is in range). -/
 def lenOk (input : List Char) : Snippet → Prop
-  | .endOfInput l => l = input
+  | .endOfInput l => ∃ m, l = input.take m ∧ (input.drop m).all blank = true
   | .lineEnd _ n => 1 ≤ n ∧ n ≤ input.length
   | .endWithLineFeed _ n => 1 ≤ n ∧ n ≤ input.length
 
 theorem Step.len_bounds {te : Bool} {input : List Char} {s : Snippet} (h : Step te input s) : lenOk input s := by
   cases h with
-  | eoi => rfl
+  | eoi => exact ⟨input.length, by simp, by simp⟩
+  | eoiTrim m _ hb => exact ⟨m, rfl, hb⟩
   | feedTrim i _ hnl _ =>
     have := (List.getElem?_eq_some_iff.mp hnl).1
     exact ⟨by omega, by omega⟩
@@ -901,6 +906,7 @@ theorem loop_value (k : LoopCfg) (hk : StringLike k) : ∀ (fuel : Nat) (rem acc
         cases h
         cases hs with
         | eoi => exact ⟨rem, by simp [pushStr], fun _ _ => rfl⟩
+        | eoiTrim _ hte _ => cases hte
 
 /-! ## the regex against Rust's reading of a line continuation -/
 
@@ -1195,7 +1201,7 @@ theorem pushFit_payload (k : LoopCfg) (hk : BlankIndent k) : ∀ (rem acc : List
 
 /-- the payload of the line a step returns is the payload of what it read -/
 def payloadOk (input : List Char) : Snippet → Prop
-  | .endOfInput l => l = input
+  | .endOfInput l => payload l = payload input
   | .lineEnd l n => payload l = payload (input.take n)
   | .endWithLineFeed l n => payload l = payload (input.take n)
 
@@ -1203,6 +1209,10 @@ theorem Step.payload_line {te : Bool} {input : List Char} {s : Snippet} (h : Ste
     payloadOk input s := by
   cases h with
   | eoi => rfl
+  | eoiTrim m _ hb =>
+    simp only [payloadOk]
+    conv => rhs; rw [← List.take_append_drop m input]
+    rw [payload_append, payload_of_all_blank hb]; simp
   | feedTrim i _ hnl _ =>
     simp only [payloadOk]
     rw [take_succ_of_getElem? hnl, payload_append, payload_append, payload_trimEndWs]
@@ -1267,8 +1277,7 @@ theorem loop_payload (k : LoopCfg) (hk : BlankIndent k) : ∀ (fuel : Nat) (rem 
         rw [heq] at hs
         simp only [payloadOk] at hs
         cases h
-        subst hs
-        exact ⟨payload line, by rw [payload_pushStr], Woven.refl _ _⟩
+        exact ⟨payload line, by rw [payload_pushStr], by rw [← hs]; exact Woven.refl _ _⟩
 
 /-- `rewrite_string` before `wrap_str`: the payload of the result is the payload of the opener, of the
 stripped input with decorations woven in, and of the closer. -/
@@ -1501,16 +1510,7 @@ theorem breakAt_line_width (te : Bool) (input : List Char) (index : Nat) (hi : i
         rw [trimEndWs_append_ws _ _ (all_isWs_of_all_blank hws)]
         exact width_trimEndWs_le _
     · rw [heq2] at h
-      cases te with
-      | true =>
-        simp only [if_true] at h
-        have hline : line = input.take (indexMinusWs input index + 1) := by
-          rcases h with h | h <;> simp at h
-          exact h.1.symm
-        rw [hline]
-        have := width_trimEndWs_le (input.take (indexMinusWs input index + 1))
-        omega
-      | false => simp at h
+      cases te <;> simp at h
 
 /-- **A line that `break_string` returns fits into `max_width`** (its trailing white space apart), unless the
 input is `Unbreakable` at the limit. -/
@@ -1790,6 +1790,7 @@ theorem loop_restrip (k : LoopCfg) (hk : StringLike k) : ∀ (fuel : Nat) (rem a
         cases h
         cases hs with
         | eoi => exact ⟨rem, by simp [pushStr], restrips_self hno⟩
+        | eoiTrim _ hte _ => cases hte
 
 /-- Stripping the continuations of a re-broken literal gives back the text that was broken: the second
 pass of `rewrite_string` starts from the same graphemes as the first. -/
